@@ -75,12 +75,17 @@ def run(ck):
     ck.rule("C09.R3", "Layered ordering: inner first for notifications, outer first for vetoes", floor=16)
     ck.rule("C09.R4", "Dispatch::event delivers iff event_enabled", floor=1)
     ck.rule("C09.R0", "wrapper impls discovered", floor=18)
+    ck.rule("C09.R6", "reload::Subscriber takes its lock with a blocking read on every call and forwards under it (as C12.R3)", floor=20)
     ck.rule("C09.R5", "Layered::pick_interest asks the inner value on every path except the outer `never` veto", floor=1)
 
     wrapper_rules(ck, F)
 
     check_dispatch_event(ck, F)
     check_pick_interest(ck, F)
+    # reload::Subscriber forwards only after taking its lock: a non-blocking try_read that gives up while a reload is in
+    # progress silently drops the notification for the wrapped layer (C12.R3's per-call blocking lock rule, instantiated)
+    from rules import C12
+    C12.r3(ck, F, rid="C09.R6")
 
 
 RIDS = {"R0": "C09.R0", "R1": "C09.R1", "R2": "C09.R2", "R3": "C09.R3"}
